@@ -18,6 +18,10 @@ def base_history(base_seed: int, index: int, tier: str, avoid, nt):
     seed = R.run_seed(base_seed, "enum", "C13", index)
     cfg = draw_cfg(R.stream(seed, "cfg"), "C13", tier, {"p_fault": 0.0})
     cfg["length"] = min(cfg["length"], 25)
+    # small trees only: the number of replays is (steps x callbacks x invocations)
+    cfg["bulk"] = None
+    cfg["shape"] = None
+    cfg["max_nodes"] = min(cfg["max_nodes"], 40)
     ops_rng = R.stream(seed, "ops")
     frng = R.stream(seed, "faults")
     avoiding = bool(avoid) and R.stream(seed, "avoid").random() < 0.8
